@@ -427,12 +427,33 @@ def install_top(reg, src):
     import ast as _ast
     cases = compile_cases(src)
 
+    def name_to_position_shape(e):
+        """{<t>.name: <i> for <i>, <t> in enumerate(<seq>)}  with any identifiers: returns the AST of <seq>, else None."""
+        if len(e.generators) != 1 or e.generators[0].ifs:
+            return None
+        g = e.generators[0]
+        it = g.iter
+        if not (isinstance(it, _ast.Call) and isinstance(it.func, _ast.Name) and it.func.id == "enumerate" and len(it.args) == 1
+                and not it.keywords):
+            return None
+        tg = g.target
+        if not (isinstance(tg, _ast.Tuple) and len(tg.elts) == 2 and all(isinstance(x, _ast.Name) for x in tg.elts)):
+            return None
+        i_name, t_name = tg.elts[0].id, tg.elts[1].id
+        if not (isinstance(e.key, _ast.Attribute) and e.key.attr == "name" and isinstance(e.key.value, _ast.Name)
+                and e.key.value.id == t_name):
+            return None
+        if not (isinstance(e.value, _ast.Name) and e.value.id == i_name):
+            return None
+        return it.args[0]
+
     def dict_hook(ip, e, fr, S):
-        # {var.name: i for i, var in enumerate(variables)}
+        # {var.name: i for i, var in enumerate(variables)}  (any identifiers)
         txt = _ast.unparse(e)
-        if txt.replace(" ", "") in ("{var.name:ifori,varinenumerate(variables)}", "{v.name:ifori,vinenumerate(variables)}"):
-            ok, vs = fr.lookup("variables")
-            if ok and isinstance(vs, SSeq):
+        seq_ast = name_to_position_shape(e)
+        if seq_ast is not None:
+            vs = ip.ev(seq_ast, fr)
+            if isinstance(vs, SSeq) and vs.tag:
                 return index_map_of_varlist(ip, vs)
         if txt.replace(" ", "") == "{v.name:float(result.x[i])fori,vinenumerate(variables)}":
             # values dict of solve_scipy: keys = names of the variable list, value at name V_k is x[k]
